@@ -335,6 +335,14 @@ func (s Server) Serve(c context.Context, conn network.Conn) (err error) {
 			statefulConn.DetectConnectionClose()
 		}
 
+		// The handler may detach the body stream from the request (Body, BodyWriteTo, CloseBodyStream,
+		// ResetBody) or put another reader in its place (SetBodyStream). The stream built on this
+		// connection is the one that has to be skipped, or found failed, before the next request is read.
+		var reqBodyStream io.Reader
+		if ctx.Request.IsBodyStream() {
+			reqBodyStream = ctx.RequestBodyStream()
+		}
+
 		// Handle the request
 		//
 		// NOTE: All middlewares and business handler will be executed in this. And at this point, the request has been parsed
@@ -411,8 +419,8 @@ func (s Server) Serve(c context.Context, conn network.Conn) (err error) {
 		}
 
 		// Release request body stream
-		if ctx.Request.IsBodyStream() {
-			err = ext.ReleaseBodyStream(ctx.RequestBodyStream())
+		if reqBodyStream != nil {
+			err = ext.ReleaseBodyStream(reqBodyStream)
 			if err != nil {
 				return
 			}
